@@ -89,10 +89,20 @@ func (k *recKV) Get(ctx context.Context, key []byte) ([]byte, error) {
 	k.gets = append(k.gets, string(key))
 	h := k.getHook
 	k.mu.Unlock()
+	var (
+		hv   []byte
+		herr error
+		hok  bool
+	)
 	if h != nil {
-		if v, err, ok := h(string(key)); ok {
-			return v, err
-		}
+		hv, herr, hok = h(string(key)) // may also cancel the caller's context (C27 histories)
+	}
+	// like the real DHT client: a lookup under a finished context fails with the context's error
+	if err := ctx.Err(); err != nil {
+		return nil, err
+	}
+	if hok {
+		return hv, herr
 	}
 	return k.mem.Get(ctx, key)
 }
